@@ -612,6 +612,54 @@ static void check_snappy_case(const Op &op) {
   if (in.size() >= 64) g_rep->fp("C16.nt", fnv1a(in));
 }
 
+// The internal-key comparator wraps the user comparator's separator: whatever spelling the user comparator returns --
+// including a physically shorter one that compares EQUAL to start, which the contract start <= sep < limit allows -- the
+// internal separator must satisfy start <= sep < limit in internal-key order (it becomes a block's index key).  User
+// comparator here: bytewise on the key with trailing 0x00 bytes ignored; its separator strips that padding (after seed C07e).
+static size_t padlen(const ldb_slice_t *x) { size_t n = x->size; while (n > 0 && ((const uint8_t *)x->data)[n - 1] == 0) n--; return n; }
+static int padnul_compare(const ldb_comparator_t *, const ldb_slice_t *a, const ldb_slice_t *b) {
+  size_t na = padlen(a), nb = padlen(b);
+  return cmp_bytes2((const char *)a->data, na, (const char *)b->data, nb);
+}
+static void padnul_separator(const ldb_comparator_t *, ldb_slice_t *start, const ldb_slice_t *) { start->size = padlen(start); }
+static void padnul_successor(const ldb_comparator_t *, ldb_slice_t *) {}
+static std::string ikey_of(const std::string &u, uint64_t seq, int type) {
+  std::string k = u;
+  uint64_t tag = (seq << 8) | (uint64_t)type;
+  for (int i = 0; i < 8; i++) k.push_back((char)((tag >> (8 * i)) & 0xff));
+  return k;
+}
+static long check_internal_separators(const std::vector<std::string> &all) {
+  ldb_comparator_t user;
+  memset(&user, 0, sizeof user);
+  user.name = "vf.padnul"; user.compare = padnul_compare; user.shortest_separator = padnul_separator; user.short_successor = padnul_successor;
+  ldb_comparator_t ikc;
+  ldb_ikc_init(&ikc, &user);
+  long n = 0;
+  for (auto &a : all) {
+    if (a.size() > 3) continue;
+    for (auto &b : all) {
+      if (b.size() > 3) continue;
+      ldb_slice_t sa = sl(a), sb = sl(b);
+      if (padnul_compare(&user, &sa, &sb) >= 0) continue;
+      std::string ia = ikey_of(a, 5 + (n % 7), 1), ib = ikey_of(b, 3 + (n % 5), n % 2);
+      ldb_buffer_t st;
+      ldb_buffer_init(&st);
+      ldb_buffer_set(&st, (const uint8_t *)ia.data(), ia.size());
+      ldb_slice_t lim = sl(ib), sia = sl(ia);
+      ikc.shortest_separator(&ikc, (ldb_slice_t *)&st, &lim);
+      ldb_slice_t sep;
+      sep.data = st.data; sep.size = st.size;
+      bool bad = st.size < 8 || ikc.compare(&ikc, &sia, &sep) > 0 || ikc.compare(&ikc, &sep, &lim) >= 0;
+      std::string seps((const char *)st.data, st.size);
+      ldb_buffer_clear(&st);
+      if (bad) VF_FAIL("C16", "internal-key shortest_separator(%s, %s) = %s is outside [start, limit) under a user comparator that ignores trailing NUL padding", lit_token(ia).c_str(), lit_token(ib).c_str(), lit_token(seps).c_str());
+      n++;
+    }
+  }
+  return n;
+}
+
 // separator / successor contract, exhaustive on short strings over a small alphabet
 static long check_separators(int maxlen) {
   static const unsigned char alpha[] = {0x00, 0x01, 0x7f, 0xfe, 0xff};
@@ -648,6 +696,7 @@ static long check_separators(int maxlen) {
       n++;
     }
   }
+  n += check_internal_separators(all);
   return n;
 }
 
